@@ -345,6 +345,11 @@ func c05FaultOnTree(m *xpath.Machine, src, listing string, ti int, res *core.Cas
 	for k := 1; k <= n; k++ {
 		t := mk()
 		t.FailAt = k
+		// (every other fault position with the debug trace on: it is built while the run fails)
+		t.Debug = (k+ti)%2 == 0
+		if t.Debug {
+			res.Ev("faulted_runs_with_debug_trace", 1)
+		}
 		var o xpmock.Outcome
 		pan, msg, stack := core.Guard(func() { o = xpmock.Run(m, t) })
 		res.Ev("faulted_runs", 1)
